@@ -186,7 +186,20 @@ def server_cancel(repo: Path) -> bool:
     if "cancelled = True" not in [ast.unparse(s) for s in br.body]:
         raise _broken("_serve_stream", "cancel branch does not record cancelled = True")
     pi = next((i for i, t in enumerate(texts) if t == "state.process(ab_in, out, process_ctx)"), None)
-    co = next((i for i, t in enumerate(texts) if t == "input_batch = _coerce_input_batch(input_batch, input_schema)"), None)
+    coerce_call = "input_batch = _coerce_input_batch(input_batch, input_schema)"
+
+    def _is_coerce(st: ast.stmt) -> bool:
+        """The coercion call, bare or inside `try: ... except Exception: if release_fn is not None: release_fn(); raise`
+        (a refused input's shm region is released, the TypeError still propagates to the loop's error handler)."""
+        if ast.unparse(st) == coerce_call:
+            return True
+        return (isinstance(st, ast.Try) and [ast.unparse(x) for x in st.body] == [coerce_call] and not st.orelse and not st.finalbody
+                and len(st.handlers) == 1 and st.handlers[0].type is not None and ast.unparse(st.handlers[0].type) == "Exception"
+                and [ast.unparse(x) for x in st.handlers[0].body] == ["if release_fn is not None:\n    release_fn()", "raise"])
+
+    co = next((i for i, st in enumerate(body) if _is_coerce(st)), None)
+    if sum("_coerce_input_batch(" in t for t in texts) != 1:
+        raise _broken("_serve_stream", "_coerce_input_batch is not called exactly once per loop turn")
     if pi is None or co is None or not (ci < co < pi):
         raise _broken("_serve_stream", "order is not: cancel branch, _coerce_input_batch, state.process")
     if texts[pi + 1] != "if not out.finished:\n    out.validate()" or texts[pi + 3] != "if out.finished:\n    break":
